@@ -238,6 +238,21 @@ class Ctx:
         return st
 
     # ---- implementation -> spec ------------------------------------------------------
+    def emit_run_validate(self, module, cfg, name, trmodule, trcfg, timeout=1800, **kw):
+        """TLC emits behaviours (inputs only); the harness runs them on the real code and
+        records what happens; TLC validates the recorded trace (spec -> impl -> spec)."""
+        cases = os.path.join(self.work, name + ".cases.ndjson")
+        log("[%s] TLC emit %s (%s)" % (self.pid, module, cfg))
+        r = run_tlc(self.work, module, cfg, timeout=timeout, cases_to=cases, **kw)
+        if r.error or r.rc != 0:
+            sys.stderr.write(r.stdout + "\n")
+            raise ToolFailure("TLC reported an error while emitting behaviours %s/%s: %s" % (module, cfg, r.error))
+        self.states += r.distinct
+        self.transitions += r.generated
+        ncases = sum(1 for _ in open(cases))
+        log("[%s]   %d behaviours emitted, %.1fs" % (self.pid, ncases, r.wall))
+        return self.record_validate("@cases", ncases, trmodule, trcfg, name=name, args=[cases])
+
     def record_validate(self, driver, n, module, cfg, name=None, timeout=1800, args=None,
                         sequential=False, devs=None, base_tag="base", **kw):
         """The harness drives the real code with seeded generated inputs and records one
@@ -284,7 +299,7 @@ class Ctx:
                 tag = accepted_by[0] if accepted_by else ""
             else:
                 tag = sorted(tags)[0]
-                tag = "" if tag == "bad" else tag
+                tag = "" if tag in ("bad", "base") else tag
             self.add_mismatch({"case": recs[k - 1] if k else None, "tag": tag, "record": k,
                                "what": "recorded outcome differs from the specification"},
                               "trace:" + name)
